@@ -3,7 +3,7 @@
    (default) state, the objects of a slab waiting for deletion are all pooled, slabs (listed or
    waiting for deletion) are pairwise disjoint. *)
 From Coq Require Import List Arith Bool Lia Permutation.
-From Muscle Require Import Conc.Pool Conc.PoolProofs Conc.RefCnt Conc.RefInv Conc.RefExcl Conc.RefStep Conc.RefActs Conc.RefActs3 Conc.RefProofs.
+From Muscle Require Import Conc.Pool Conc.PoolProofs Conc.RefCnt Conc.RefInv Conc.RefExcl Conc.RefStep Conc.RefActs Conc.RefActs3 Conc.RefActs4 Conc.RefProofs Conc.RefFork.
 Import ListNotations.
 Local Open Scope nat_scope.
 
@@ -376,7 +376,8 @@ Proof.
   - (* every object of the slab is pooled *)
     assert (G : forall n, n <= N -> range_all (s_heap s) (sl_base sd) n is_pooled_st = true).
     { induction n as [|n IH]; intros Hn; cbn; auto. rewrite IH by lia. rewrite andb_true_r.
-      unfold is_pooled_st. rewrite (Hown_pooled (sl_base sd + n)); auto. apply owns_spec. lia. }
+      assert (Hq : o_st (hobj s (sl_base sd + n)) = Pooled) by (apply Hown_pooled; apply owns_spec; lia).
+      unfold hobj in Hq. unfold is_pooled_st. rewrite Hq. reflexivity. }
     apply G; auto.
   - assert (Hget : forall x, hobj s' x = if owns N sd x then set_st (hobj s x) Dead else hobj s x).
     { intros x. unfold hobj, s'; cbn [s_heap with_thr]. rewrite set_range_get by auto. rewrite Hrange. reflexivity. }
@@ -400,6 +401,456 @@ Proof.
     + intros x Hx. rewrite Hget. assert (Hx' : owned_by (pend s ++ p_slabs (s_pool s)) x).
       { apply owned_app in Hx. apply owned_app. destruct Hx as [A|A]; auto. left. apply Hsub; auto. }
       specialize (P7 x Hx'). destruct (owns N sd x); auto.
+Qed.
+
+
+(* ------------------------------------------------------------------ Drain *)
+
+Lemma slabs_of_map : forall dels, slabs_of (map ASlabDel dels) = dels.
+Proof. induction dels as [|d ds IH]; cbn; auto. rewrite IH; auto. Qed.
+
+Lemma nodup_app : forall A (a b : list A), NoDup a -> NoDup b -> (forall x, In x a -> In x b -> False) -> NoDup (a ++ b).
+Proof.
+  induction a as [|h t IH]; intros b Ha Hb Hd; cbn; auto. inversion Ha; subst. constructor.
+  - intros Hin. apply in_app_or in Hin. destruct Hin; auto. apply (Hd h); auto. left; auto.
+  - apply IH; auto. intros x I1 I2. apply (Hd x); auto. right; auto.
+Qed.
+
+(* adding slabs taken out of the list (all their objects are free there) to the pending ones *)
+Lemma pend_ok_add : forall s dels, 1 <= N -> plink s ->
+  Forall (fun sd => sl_base sd + N <= length (s_heap s)) dels -> NoDup (map sl_base dels) ->
+  (forall s1 s2 x, In s1 dels -> In s2 dels -> owns N s1 x = true -> owns N s2 x = true -> sl_base s1 = sl_base s2) ->
+  (forall sd x, In sd dels -> owns N sd x = true -> owned_by (p_slabs (s_pool s)) x) ->
+  pend_ok (length (s_heap s)) (dels ++ pend s).
+Proof.
+  intros s dels HN P Hb Hnd Huniq Hlisted. destruct (pl_pendok s P) as (A1 & A2 & A3).
+  assert (Hx : forall sd sd' x, In sd dels -> In sd' (pend s) -> owns N sd x = true -> owns N sd' x = true -> False).
+  { intros sd sd' x I1 I2 O1 O2. apply (pl_cross s P x); [exists sd'; auto|eapply Hlisted; eauto]. }
+  split; [apply Forall_app; auto|]. split.
+  - rewrite map_app. apply nodup_app; auto.
+    intros b I1 I2. apply in_map_iff in I1, I2. destruct I1 as (sd & E1 & I1). destruct I2 as (sd' & E2 & I2).
+    apply (Hx sd sd' b I1 I2); apply owns_spec; lia.
+  - intros a b x Ia Ib Oa Ob. apply in_app_or in Ia, Ib. destruct Ia as [Ia|Ia], Ib as [Ib|Ib]; eauto.
+    + exfalso; eapply Hx; eauto.
+    + exfalso; eapply (Hx b a); eauto.
+Qed.
+
+
+Lemma nodup_map_of_inj : forall A B (f : A -> B) l, NoDup l -> (forall a b, In a l -> In b l -> f a = f b -> a = b) -> NoDup (map f l).
+Proof.
+  induction l as [|h t IH]; intros Hn Hinj; cbn; [constructor|]. inversion Hn; subst. constructor.
+  - intros Hin. apply in_map_iff in Hin. destruct Hin as (x & E & Hx).
+    assert (x = h) by (apply Hinj; auto; [right; auto|left; auto]). subst. auto.
+  - apply IH; auto. intros a b Ia Ib. apply Hinj; right; auto.
+Qed.
+
+Lemma plink_drain : forall s t stk prog p' dels, 1 <= N ->
+  plink s -> t < length (s_thr s) -> thr s t = mkThr stk [ADrain] prog ->
+  pool_drain N (s_pool s) = (p', dels) ->
+  plink (with_thr s t (mkThr stk (map ASlabDel dels ++ []) prog) (s_heap s) p').
+Proof.
+  intros s t stk prog p' dels HN P Ht E Hd. pose proof P as [P1 P2 P2b P3 P4 P5 P6 P7].
+  pose proof (pool_drain_spec N (length (s_heap s)) (s_pool s) HN P1) as Hspec. rewrite Hd in Hspec.
+  destruct Hspec as (D1 & D2 & D3 & D4 & D5 & D6 & D7 & D8).
+  set (s' := with_thr s t (mkThr stk (map ASlabDel dels ++ []) prog) (s_heap s) p').
+  assert (HP : Permutation (pend s') (dels ++ pend s)).
+  { pose proof (pend_with s t (mkThr stk (map ASlabDel dels ++ []) prog) (s_heap s) p' Ht) as H. fold s' in H.
+    rewrite E in H. cbn [t_todo slabs_of] in H. rewrite !app_nil_r, slabs_of_map in H.
+    eapply Permutation_trans; [exact H|]. apply Permutation_app_comm. }
+  assert (Hdels_listed : forall sd x, In sd dels -> owns N sd x = true -> owned_by (p_slabs (s_pool s)) x).
+  { intros sd x I O. apply pfree_owned. destruct (D3 sd I) as (_ & H). auto. }
+  assert (Hnd : NoDup (map sl_base dels)).
+  { apply nodup_map_of_inj.
+    - eapply NoDup_map_inv; eauto.
+    - intros a b Ia Ib Eb. apply (D8 a b (sl_base a)); auto; apply owns_spec; lia. }
+  assert (Hok : pend_ok (length (s_heap s)) (dels ++ pend s)).
+  { apply pend_ok_add; auto.
+    - apply Forall_forall. intros sd I. destruct (D3 sd I); auto.
+    - intros s1 s2 x I1 I2 O1 O2. rewrite (D8 s1 s2 x); auto. }
+  assert (Hown' : forall x, owned_by (pend s') x <-> owned_by dels x \/ owned_by (pend s) x).
+  { intros x. rewrite <- owned_app. split; apply owned_perm; auto. apply Permutation_sym; auto. }
+  assert (Hlisted' : forall x, owned_by (p_slabs p') x -> owned_by (p_slabs (s_pool s)) x /\ ~ owned_by dels x).
+  { intros x Hx. destruct (owned_free_or_used _ x Hx) as [F|U].
+    - apply D5 in F. destruct F as (F & Hno). split; [apply pfree_owned; auto|]. intros (sd & I & O). rewrite (Hno sd I) in O. discriminate.
+    - apply D4 in U. split; [apply pused_owned; auto|]. intros (sd & I & O). destruct (D3 sd I) as (_ & H).
+      apply (pfree_pused_excl N (length (s_heap s)) (p_nextid (s_pool s)) (p_slabs (s_pool s)) x (pool_wf_cwf _ _ _ P1)); auto. }
+  constructor; unfold s'; cbn [s_pool s_heap with_thr]; fold s'.
+  - exact D1.
+  - eapply pend_ok_perm; [apply Permutation_sym; eauto|auto].
+  - intros x Hx Hl. destruct (Hlisted' x Hl) as (A & B). apply Hown' in Hx. destruct Hx as [Hx|Hx]; [tauto|]. apply (P2b x); auto.
+  - intros x Hx. apply D5 in Hx. apply P3. tauto.
+  - intros x Hx. apply D4 in Hx. apply P4; auto.
+  - intros x Hx. apply Hown' in Hx. destruct Hx as [(sd & I & O)|Hx]; [|apply P5; auto].
+    destruct (D3 sd I) as (_ & H). apply P3; auto.
+  - intros x Hx Hp Hdd. specialize (P6 x Hx Hp Hdd). apply owned_app in P6. apply owned_app. destruct P6 as [A|A].
+    + left. apply Hown'. auto.
+    + destruct (owned_free_or_used _ x A) as [F|U].
+      * destruct (D6 x F) as [F'|(sd & I & O)]; [right; apply pfree_owned; auto|left; apply Hown'; left; exists sd; auto].
+      * right. apply pused_owned. apply D4; auto.
+  - intros x Hx. apply P7. apply owned_app in Hx. apply owned_app. destruct Hx as [A|A].
+    + apply Hown' in A. destruct A as [(sd & I & O)|A]; [right; eapply Hdels_listed; eauto|left; auto].
+    + right. apply Hlisted'; auto.
+Qed.
+
+
+(* ------------------------------------------------------------------ ReleaseObject *)
+
+Lemma releasing_is_used : forall s o, plink s -> o < length (s_heap s) ->
+  is_releasing (hobj s o) = true -> o_pooled (hobj s o) = true -> pused N (p_slabs (s_pool s)) o.
+Proof.
+  intros s o P Ho Hr Hp. unfold is_releasing in Hr. destruct (o_st (hobj s o)) eqn:Est; try discriminate.
+  assert (Hnd : o_st (hobj s o) <> Dead) by congruence.
+  pose proof (pl_cover s P o Ho Hp Hnd) as Hc. apply owned_app in Hc. destruct Hc as [Hc|Hc].
+  - pose proof (pl_pend s P o Hc). congruence.
+  - destruct (owned_free_or_used _ o Hc) as [F|U]; auto. destruct (pl_free s P o F). congruence.
+Qed.
+
+Lemma plink_release : forall s t stk o n rest prog p' del, 1 <= N ->
+  plink s -> t < length (s_thr s) -> thr s t = mkThr stk (ARel o n :: rest) prog ->
+  o < length (s_heap s) -> is_releasing (hobj s o) = true -> o_pooled (hobj s o) = true ->
+  pool_release N (s_pool s) o = (p', del) ->
+  plink (with_thr s t (mkThr stk (match del with Some sd => ASlabDel sd :: rest | None => rest end) prog)
+           (upd (s_heap s) o (set_st (set_val (hobj s o) 0) Pooled)) p').
+Proof.
+  intros s t stk o n rest prog p' del HN P Ht E Ho Hr Hp Hrel. pose proof P as [P1 P2 P2b P3 P4 P5 P6 P7].
+  pose proof (releasing_is_used s o P Ho Hr Hp) as Hused.
+  pose proof (pool_release_spec N (length (s_heap s)) (s_pool s) o HN P1 Hused) as Hspec. rewrite Hrel in Hspec.
+  destruct Hspec as (R1 & R2 & R3).
+  set (h' := upd (s_heap s) o (set_st (set_val (hobj s o) 0) Pooled)).
+  set (todo' := match del with Some sd => ASlabDel sd :: rest | None => rest end).
+  set (s' := with_thr s t (mkThr stk todo' prog) h' p').
+  assert (Hget : forall x, hobj s' x = if x =? o then set_st (set_val (hobj s o) 0) Pooled else hobj s x).
+  { intros x. unfold hobj, s', h'; cbn [s_heap with_thr]. destruct (x =? o) eqn:Ex.
+    - apply Nat.eqb_eq in Ex. subst x. apply get_upd_same; auto.
+    - apply Nat.eqb_neq in Ex. apply get_upd_other; auto. }
+  assert (Hlen : length (s_heap s') = length (s_heap s)) by (unfold s', h'; cbn [s_heap with_thr]; apply upd_length).
+  assert (Ho_listed : owned_by (p_slabs (s_pool s)) o) by (apply pused_owned; auto).
+  assert (Ho_notpend : ~ owned_by (pend s) o) by (intros H; apply (P2b o H); auto).
+  assert (HP : Permutation (pend s') (match del with Some sd => [sd] | None => [] end ++ pend s)).
+  { pose proof (pend_with s t (mkThr stk todo' prog) h' p' Ht) as H. fold s' in H. rewrite E in H. cbn [t_todo slabs_of] in H.
+    unfold todo' in H. destruct del as [sd|]; cbn [slabs_of app] in H |- *.
+    - assert (H2 : Permutation (pend s' ++ slabs_of rest) ((sd :: pend s) ++ slabs_of rest)).
+      { eapply Permutation_trans; [exact H|]. cbn [app]. apply Permutation_sym. apply Permutation_middle. }
+      apply Permutation_app_inv_r in H2. exact H2.
+    - apply Permutation_app_inv_r in H. exact H. }
+  destruct del as [sd|].
+  - (* the slab goes with it *)
+    destruct R3 as (S1 & S2 & S3 & S4 & S5). cbn [app] in HP.
+    assert (Hsd_listed : forall x, owns N sd x = true -> owned_by (p_slabs (s_pool s)) x).
+    { intros x Hx. destruct (S3 x Hx) as [->|F]; auto. apply pfree_owned; auto. }
+    assert (Hok : pend_ok (length (s_heap s)) ([sd] ++ pend s)).
+    { assert (B1 : Forall (fun sd0 => sl_base sd0 + N <= length (s_heap s)) [sd]) by (constructor; [exact S2|constructor]).
+      assert (B2 : NoDup (map sl_base [sd])) by (cbn; constructor; [intros []|constructor]).
+      assert (B3 : forall s1 s2 x, In s1 [sd] -> In s2 [sd] -> owns N s1 x = true -> owns N s2 x = true -> sl_base s1 = sl_base s2)
+        by (intros s1 s2 x [<-|[]] [<-|[]]; auto).
+      assert (B4 : forall a x, In a [sd] -> owns N a x = true -> owned_by (p_slabs (s_pool s)) x) by (intros a x [<-|[]] O; auto).
+      exact (pend_ok_add s [sd] HN P B1 B2 B3 B4). }
+    assert (Hown' : forall x, owned_by (pend s') x <-> owns N sd x = true \/ owned_by (pend s) x).
+    { intros x. split.
+      - intros H. eapply owned_perm in H; [|exact HP]. destruct H as (a & [<-|Ia] & Oa); auto. right; exists a; auto.
+      - intros [H|(a & Ia & Oa)]; (eapply owned_perm; [apply Permutation_sym; exact HP|]); [exists sd; split; auto; left; auto|exists a; split; auto; right; auto]. }
+    assert (Hlisted' : forall x, owned_by (p_slabs p') x -> owned_by (p_slabs (s_pool s)) x /\ owns N sd x = false).
+    { intros x Hx. destruct (owns N sd x) eqn:Eo.
+      - exfalso. destruct (S4 x Eo) as (A & B). destruct (owned_free_or_used _ x Hx); auto.
+      - split; auto. destruct (S5 x Eo) as (A & B). destruct (owned_free_or_used _ x Hx) as [F|U]; [apply pfree_owned; apply A; auto|apply pused_owned; apply B; auto]. }
+    constructor; rewrite ?Hlen; unfold s' at 1; cbn [s_pool with_thr].
+    + exact R1.
+    + eapply pend_ok_perm; [apply Permutation_sym; exact HP|exact Hok].
+    + intros x Hx Hl. destruct (Hlisted' x Hl) as (A & B). apply Hown' in Hx. destruct Hx as [Hx|Hx]; [congruence|]. apply (P2b x); auto.
+    + intros x Hx. destruct (Hlisted' x (pfree_owned _ _ Hx)) as (A & B). destruct (S5 x B) as (C & _). apply C in Hx.
+      rewrite Hget. destruct (x =? o) eqn:Ex; [apply Nat.eqb_eq in Ex; subst; congruence|]. apply P3; auto.
+    + intros x Hx. destruct (Hlisted' x (pused_owned _ _ Hx)) as (A & B). destruct (S5 x B) as (_ & C). apply C in Hx.
+      rewrite Hget. destruct (x =? o) eqn:Ex; [apply Nat.eqb_eq in Ex; subst; congruence|]. apply P4; auto.
+    + intros x Hx. apply Hown' in Hx. rewrite Hget. destruct (x =? o) eqn:Ex; [reflexivity|]. apply Nat.eqb_neq in Ex.
+      destruct Hx as [Hx|Hx]; [|apply P5; auto]. destruct (S3 x Hx) as [->|F]; [congruence|]. apply P3; auto.
+    + intros x Hx Hpx Hdx. rewrite Hget in Hpx, Hdx. apply owned_app. destruct (owns N sd x) eqn:Eo; [left; apply Hown'; auto|].
+      destruct (x =? o) eqn:Ex; [apply Nat.eqb_eq in Ex; subst; congruence|].
+      specialize (P6 x Hx Hpx Hdx). apply owned_app in P6. destruct P6 as [A|A]; [left; apply Hown'; auto|right].
+      destruct (S5 x Eo) as (C1 & C2). destruct (owned_free_or_used _ x A) as [F|U]; [apply pfree_owned; apply C1; auto|apply pused_owned; apply C2; auto].
+    + intros x Hx. assert (Hx' : owned_by (pend s ++ p_slabs (s_pool s)) x).
+      { apply owned_app in Hx. apply owned_app. destruct Hx as [A|A].
+        - apply Hown' in A. destruct A as [A|A]; auto.
+        - right. apply Hlisted'; auto. }
+      specialize (P7 x Hx'). rewrite Hget. destruct (x =? o) eqn:Ex; auto.
+  - (* the slab stays *)
+    destruct R3 as (S1 & S2). cbn [app] in HP.
+    assert (Hlisted' : forall x, owned_by (p_slabs p') x <-> owned_by (p_slabs (s_pool s)) x).
+    { intros x. destruct (Nat.eq_dec x o) as [->|Hne].
+      - split; intros _; [exact Ho_listed|apply pfree_owned; exact S1].
+      - destruct (S2 x Hne) as (A & B). split; intros H; destruct (owned_free_or_used _ x H) as [F|U].
+        + apply pfree_owned. apply A. exact F.
+        + apply pused_owned. apply B. exact U.
+        + apply pfree_owned. apply A. exact F.
+        + apply pused_owned. apply B. exact U. }
+    constructor; rewrite ?Hlen; unfold s' at 1; cbn [s_pool with_thr].
+    + exact R1.
+    + eapply pend_ok_perm; [apply Permutation_sym; exact HP|exact P2].
+    + intros x Hx Hl. apply (P2b x); [eapply owned_perm; eauto|apply Hlisted'; auto].
+    + intros x Hx. rewrite Hget. destruct (x =? o) eqn:Ex; [cbn; auto|]. apply Nat.eqb_neq in Ex. apply P3. apply (S2 x Ex); auto.
+    + intros x Hx. rewrite Hget. destruct (x =? o) eqn:Ex.
+      * apply Nat.eqb_eq in Ex. subst. exfalso.
+        apply (pfree_pused_excl N (length (s_heap s)) (p_nextid p') (p_slabs p') o (pool_wf_cwf _ _ _ R1)); auto.
+      * apply Nat.eqb_neq in Ex. apply P4. apply (S2 x Ex); auto.
+    + intros x Hx. assert (Hx' : owned_by (pend s) x) by (eapply owned_perm; eauto). rewrite Hget.
+      destruct (x =? o) eqn:Ex; [reflexivity|]. apply P5; auto.
+    + intros x Hx Hpx Hdx. rewrite Hget in Hpx, Hdx. apply owned_app. destruct (x =? o) eqn:Ex.
+      * apply Nat.eqb_eq in Ex. subst. right. apply pfree_owned; auto.
+      * specialize (P6 x Hx Hpx Hdx). apply owned_app in P6. destruct P6 as [A|A]; [left; eapply owned_perm; [apply Permutation_sym; exact HP|auto]|right; apply Hlisted'; auto].
+    + intros x Hx. assert (Hx' : owned_by (pend s ++ p_slabs (s_pool s)) x).
+      { apply owned_app in Hx. apply owned_app. destruct Hx as [A|A]; [left; eapply owned_perm; eauto|right; apply Hlisted'; auto]. }
+      specialize (P7 x Hx'). rewrite Hget. destruct (x =? o) eqn:Ex; auto.
+Qed.
+
+
+(* ------------------------------------------------------------------ ObtainObject *)
+
+Lemma get_new_pooled : forall h x, length h <= x -> x < length h + N ->
+  get_obj (h ++ repeat (fresh_obj K true Pooled) N) x = fresh_obj K true Pooled.
+Proof.
+  intros h x H1 H2. unfold get_obj. rewrite app_nth2 by lia.
+  assert (G : forall n i (a d : obj), i < n -> nth i (repeat a n) d = a).
+  { induction n as [|n IH]; intros [|i] a d Hi; cbn; try lia; auto. apply IH; lia. }
+  apply G. lia.
+Qed.
+
+Lemma plink_obtain : forall s t stk l prog p' o created, 1 <= N ->
+  inv1 K s -> plink s -> t < length (s_thr s) -> thr s t = mkThr stk [APoolObt l] prog ->
+  pool_obtain N (length (s_heap s)) (s_pool s) = (p', o, created) ->
+  let h1 := match created with Some _ => s_heap s ++ repeat (fresh_obj K true Pooled) N | None => s_heap s end in
+  is_pooled_st (get_obj h1 o) && is_default (get_obj h1 o) = true /\
+  forall stk' todo', slabs_of todo' = [] ->
+    plink (with_thr s t (mkThr stk' todo' prog) (upd h1 o (born (get_obj h1 o))) p').
+Proof.
+  intros s t stk l prog p' o created HN I P Ht E Hobt h1. pose proof P as [P1 P2 P2b P3 P4 P5 P6 P7].
+  pose proof (pool_obtain_spec N (length (s_heap s)) (s_pool s) HN P1) as Hspec. rewrite Hobt in Hspec.
+  assert (Hpend : forall stk' todo' h2, slabs_of todo' = [] -> Permutation (pend (with_thr s t (mkThr stk' todo' prog) h2 p')) (pend s)).
+  { intros stk' todo' h2 Hs. apply pend_same; auto. rewrite E. cbn [t_todo]. rewrite Hs. reflexivity. }
+  destruct created as [sn|]; unfold obtain_spec in Hspec.
+  - (* a new slab *)
+    destruct Hspec as (O1 & O2 & O3 & O4 & O5 & O6 & O7).
+    assert (Hh1 : length h1 = length (s_heap s) + N) by (unfold h1; rewrite app_length, repeat_length; auto).
+    assert (Hold : forall x, x < length (s_heap s) -> get_obj h1 x = hobj s x) by (intros; unfold h1; apply get_app_old; auto).
+    assert (Hnew : forall x, length (s_heap s) <= x -> x < length (s_heap s) + N -> get_obj h1 x = fresh_obj K true Pooled)
+      by (intros; unfold h1; apply get_new_pooled; auto).
+    assert (Hobj : get_obj h1 o = fresh_obj K true Pooled) by (apply Hnew; lia).
+    split.
+    + rewrite Hobj.
+      assert (A : all_none (repeat None K) = true) by (unfold all_none; apply forallb_forall; intros x Hx; apply repeat_spec in Hx; subst; auto).
+      unfold is_pooled_st, is_default, fresh_obj. cbn [o_cnt o_mem o_val o_st]. rewrite A. reflexivity.
+    + intros stk' todo' Hs. set (s' := with_thr s t (mkThr stk' todo' prog) (upd h1 o (born (get_obj h1 o))) p').
+      assert (HP : Permutation (pend s') (pend s)) by (apply Hpend; auto).
+      assert (Hget : forall x, hobj s' x = if x =? o then born (fresh_obj K true Pooled) else get_obj h1 x).
+      { intros x. unfold hobj, s'; cbn [s_heap with_thr]. destruct (x =? o) eqn:Ex.
+        - apply Nat.eqb_eq in Ex. subst x. rewrite get_upd_same by lia. rewrite Hobj. reflexivity.
+        - apply Nat.eqb_neq in Ex. apply get_upd_other; auto. }
+      assert (Hlen : length (s_heap s') = length (s_heap s) + N) by (unfold s'; cbn [s_heap with_thr]; rewrite upd_length; auto).
+      assert (Hlt_old : forall x, owned_by (pend s ++ p_slabs (s_pool s)) x -> x < length (s_heap s)) by (intros; eapply all_owned_lt; eauto).
+      constructor; rewrite ?Hlen; unfold s' at 1; cbn [s_pool with_thr].
+      * exact O1.
+      * eapply pend_ok_weaken; [|eapply pend_ok_perm; [apply Permutation_sym; exact HP|exact P2]]. lia.
+      * intros x Hx Hl. assert (Hx' : owned_by (pend s) x) by (eapply owned_perm; eauto).
+        assert (x < length (s_heap s)) by (apply Hlt_old; apply owned_app; auto).
+        destruct (Nat.eq_dec x o) as [->|Hne]; [lia|]. destruct (O7 x Hne) as (A & B).
+        destruct (owned_free_or_used _ x Hl) as [F|U].
+        -- apply A in F. destruct F as [F|F]; [|lia]. apply (P2b x); auto. apply pfree_owned; auto.
+        -- apply B in U. apply (P2b x); auto. apply pused_owned; auto.
+      * intros x Hx. destruct (Nat.eq_dec x o) as [->|Hne].
+        -- exfalso. apply (pfree_pused_excl N _ _ _ o (pool_wf_cwf _ _ _ O1)); auto.
+        -- rewrite Hget. apply Nat.eqb_neq in Hne as Hne'. rewrite Hne'. destruct (O7 x Hne) as (A & _). apply A in Hx. destruct Hx as [F|F].
+           ++ rewrite Hold by (apply Hlt_old; apply owned_app; right; apply pfree_owned; auto). apply P3; auto.
+           ++ rewrite Hnew by lia. cbn. auto.
+      * intros x Hx. rewrite Hget. destruct (x =? o) eqn:Ex; [cbn; auto|]. apply Nat.eqb_neq in Ex. destruct (O7 x Ex) as (_ & B). apply B in Hx.
+        rewrite Hold by (apply Hlt_old; apply owned_app; right; apply pused_owned; auto). apply P4; auto.
+      * intros x Hx. assert (Hx' : owned_by (pend s) x) by (eapply owned_perm; eauto).
+        assert (x < length (s_heap s)) by (apply Hlt_old; apply owned_app; auto).
+        rewrite Hget. assert (Ex : (x =? o) = false) by (apply Nat.eqb_neq; lia). rewrite Ex, Hold by auto. apply P5; auto.
+      * intros x Hx Hpx Hdx. rewrite Hget in Hpx, Hdx. apply owned_app. destruct (x =? o) eqn:Ex.
+        -- apply Nat.eqb_eq in Ex. subst. right. apply pused_owned; auto.
+        -- apply Nat.eqb_neq in Ex. destruct (O7 x Ex) as (A & B). destruct (lt_dec x (length (s_heap s))) as [Hl|Hl].
+           ++ rewrite Hold in Hpx, Hdx by auto. specialize (P6 x Hl Hpx Hdx). apply owned_app in P6. destruct P6 as [C|C].
+              ** left. eapply owned_perm; [apply Permutation_sym; exact HP|auto].
+              ** right. destruct (owned_free_or_used _ x C) as [F|U]; [apply pfree_owned; apply A; auto|apply pused_owned; apply B; auto].
+           ++ right. apply pfree_owned. apply A. right. lia.
+      * intros x Hx. rewrite Hget. destruct (x =? o) eqn:Ex; [reflexivity|]. apply Nat.eqb_neq in Ex. destruct (O7 x Ex) as (A & B).
+        apply owned_app in Hx. destruct Hx as [C|C].
+        -- assert (Hx' : owned_by (pend s) x) by (eapply owned_perm; eauto).
+           rewrite Hold by (apply Hlt_old; apply owned_app; auto). apply P7. apply owned_app; auto.
+        -- destruct (owned_free_or_used _ x C) as [F|U].
+           ++ apply A in F. destruct F as [F|F].
+              ** rewrite Hold by (apply Hlt_old; apply owned_app; right; apply pfree_owned; auto). apply P7. apply owned_app; right. apply pfree_owned; auto.
+              ** rewrite Hnew by lia. reflexivity.
+           ++ apply B in U. rewrite Hold by (apply Hlt_old; apply owned_app; right; apply pused_owned; auto). apply P7. apply owned_app; right. apply pused_owned; auto.
+  - (* an existing slab *)
+    destruct Hspec as (O1 & O2 & O3 & O4 & O5). unfold h1.
+    destruct (P3 o O2) as (Est & Eval).
+    assert (Ho : o < length (s_heap s)) by (eapply all_owned_lt; eauto; apply owned_app; right; apply pfree_owned; auto).
+    assert (Hnl : is_live (hobj s o) = false) by (unfold is_live; rewrite Est; auto).
+    destruct (dead_cnt0 K s o I Hnl) as (Ec & _). destruct (i_mem K s I o Ho) as (_ & Hq). unfold quiet in Hq. rewrite Est in Hq.
+    split.
+    + unfold is_pooled_st, is_default. unfold hobj in *. rewrite Est, Ec, Eval, Hq. reflexivity.
+    + intros stk' todo' Hs. set (s' := with_thr s t (mkThr stk' todo' prog) (upd (s_heap s) o (born (get_obj (s_heap s) o))) p').
+      assert (HP : Permutation (pend s') (pend s)) by (apply Hpend; auto).
+      assert (Hget : forall x, hobj s' x = if x =? o then born (hobj s o) else hobj s x).
+      { intros x. unfold hobj, s'; cbn [s_heap with_thr]. destruct (x =? o) eqn:Ex.
+        - apply Nat.eqb_eq in Ex. subst x. apply get_upd_same; auto.
+        - apply Nat.eqb_neq in Ex. apply get_upd_other; auto. }
+      assert (Hlen : length (s_heap s') = length (s_heap s)) by (unfold s'; cbn [s_heap with_thr]; apply upd_length).
+      assert (Hlisted' : forall x, owned_by (p_slabs p') x <-> owned_by (p_slabs (s_pool s)) x).
+      { intros x. destruct (Nat.eq_dec x o) as [->|Hne].
+        - split; intros _; [apply pfree_owned; exact O2|apply pused_owned; exact O3].
+        - destruct (O5 x Hne) as (A & B). split; intros H; destruct (owned_free_or_used _ x H) as [F|U].
+          + apply pfree_owned. apply A. exact F.
+          + apply pused_owned. apply B. exact U.
+          + apply pfree_owned. apply A. exact F.
+          + apply pused_owned. apply B. exact U. }
+      constructor; rewrite ?Hlen; unfold s' at 1; cbn [s_pool with_thr].
+      * exact O1.
+      * eapply pend_ok_perm; [apply Permutation_sym; exact HP|exact P2].
+      * intros x Hx Hl. apply (P2b x); [eapply owned_perm; eauto|apply Hlisted'; auto].
+      * intros x Hx. destruct (Nat.eq_dec x o) as [->|Hne].
+        -- exfalso. apply (pfree_pused_excl N _ _ _ o (pool_wf_cwf _ _ _ O1)); auto.
+        -- rewrite Hget. apply Nat.eqb_neq in Hne as Hne'. rewrite Hne'. apply P3. apply (O5 x Hne); auto.
+      * intros x Hx. rewrite Hget. destruct (x =? o) eqn:Ex; [cbn; auto|]. apply Nat.eqb_neq in Ex. apply P4. apply (O5 x Ex); auto.
+      * intros x Hx. assert (Hx' : owned_by (pend s) x) by (eapply owned_perm; eauto). rewrite Hget.
+        destruct (x =? o) eqn:Ex; [|apply P5; auto]. apply Nat.eqb_eq in Ex. subst. exfalso. apply (P2b o Hx'). apply pfree_owned; auto.
+      * intros x Hx Hpx Hdx. rewrite Hget in Hpx, Hdx. apply owned_app. destruct (x =? o) eqn:Ex.
+        -- apply Nat.eqb_eq in Ex. subst. right. apply pused_owned; auto.
+        -- specialize (P6 x Hx Hpx Hdx). apply owned_app in P6. destruct P6 as [C|C];
+             [left; eapply owned_perm; [apply Permutation_sym; exact HP|auto]|right; apply Hlisted'; auto].
+      * intros x Hx. assert (Hx' : owned_by (pend s ++ p_slabs (s_pool s)) x).
+        { apply owned_app in Hx. apply owned_app. destruct Hx as [A|A]; [left; eapply owned_perm; eauto|right; apply Hlisted'; auto]. }
+        specialize (P7 x Hx'). rewrite Hget. destruct (x =? o) eqn:Ex; auto. apply Nat.eqb_eq in Ex. subst. exact P7.
+Qed.
+
+
+(* ------------------------------------------------------------------ every step *)
+
+Theorem step_plink : forall s t, 1 <= N -> inv1 K s -> plink s -> progs_ok s -> t < length (s_thr s) ->
+  plink (fst (step N K s t)) /\ bad56 (snd (step N K s t)) = false.
+Proof.
+  intros s t HN I P HP Ht. unfold step. fold (thr s t).
+  pose proof (HP _ (thr_in s t Ht)) as Hprog.
+  destruct (thr s t) as [stk todo prog] eqn:E. cbn [t_todo t_stk t_prog] in *.
+  destruct todo as [|a rest].
+  - destruct prog as [|op prog]; [cbn; auto|].
+    destruct (begin_op K (s_heap s) stk op) as [[[h' stk'] todo'] ok] eqn:Hb. cbn [fst snd].
+    cbn in Hprog. apply andb_true_iff in Hprog. destruct Hprog as (Hop & _).
+    destruct (begin_frame s t stk op prog h' stk' todo' ok I Ht E Hop Hb) as (F & S).
+    split; [|reflexivity]. apply (plink_of_frame s t stk [] (op :: prog) stk' todo' prog h' P Ht E F). exact S.
+  - pose proof (i_shape K s I t Ht) as Hsh. rewrite E in Hsh. cbn [t_todo] in Hsh.
+    assert (Hact : act_ok s stk a) by (pose proof (i_acts K s I t a Ht) as A; rewrite E in A; apply A; left; auto).
+    destruct (do_act N K (s_heap s) (s_pool s) stk a rest) as [[[[h' stk'] todo'] p'] ev] eqn:Hdo. cbn [fst snd].
+    assert (Hframe : pool_free_act (s_heap s) a ->
+              plink (mkSt h' (upd (s_thr s) t (mkThr stk' todo' prog)) p') /\ bad56 ev = false).
+    { intros Hpf. destruct (do_act_frame (s_heap s) (s_pool s) stk a rest h' stk' todo' p' ev Hpf Hdo) as (-> & F & S & B).
+      split; auto. apply (plink_of_frame s t stk (a :: rest) prog stk' todo' prog h' P Ht E F S). }
+    destruct a; try (apply Hframe; exact Logic.I).
+    + (* ARel *)
+      cbn in Hact. destruct Hact as (Hr & Hn & _).
+      destruct (n <? length (o_mem (hobj s o))) eqn:En; [apply Hframe; cbn; intros _; left; apply Nat.ltb_lt; exact En|].
+      destruct (o_pooled (hobj s o)) eqn:Ep; [|apply Hframe; cbn; intros _; right; exact Ep].
+      cbn [do_act] in Hdo. unfold hobj in Hr, En, Ep. rewrite Hr in Hdo. cbn [negb] in Hdo. rewrite En, Ep in Hdo.
+      destruct (pool_release N (s_pool s) o) as [p2 del] eqn:Hrel.
+      pose proof (plink_release s t stk o n rest prog p2 del HN P Ht E (releasing_lt _ _ Hr) Hr Ep Hrel) as G.
+      destruct del as [sd|]; inversion Hdo; subst; split; auto.
+    + (* APoolObt *)
+      pose proof (single_rest _ _ Hsh Logic.I) as ->.
+      cbn [do_act] in Hdo. destruct (pool_obtain N (length (s_heap s)) (s_pool s)) as [[p2 o] created] eqn:Hobt.
+      destruct (plink_obtain s t stk l prog p2 o created HN I P Ht E Hobt) as (Hok & G). cbn zeta in Hok, G.
+      rewrite Hok in Hdo. inversion Hdo; subst. split; [|reflexivity]. apply G.
+      rewrite slabs_of_app. cbn [slabs_of]. rewrite app_nil_r.
+      exact (slabs_of_setref l (read_slot (match created with Some _ => s_heap s ++ repeat (fresh_obj K true Pooled) N | None => s_heap s end) stk' l) (Some o) true None).
+    + (* ADrain *)
+      pose proof (single_rest _ _ Hsh Logic.I) as ->.
+      cbn [do_act] in Hdo. destruct (pool_drain N (s_pool s)) as [p2 dels] eqn:Hdr. inversion Hdo; subst.
+      split; [|reflexivity]. apply (plink_drain s t stk' prog p' dels HN P Ht E Hdr).
+    + (* ASlabDel *)
+      destruct (plink_slabdel s t stk s0 rest prog HN P Ht E) as (Hall & G).
+      cbn [do_act] in Hdo. rewrite Hall in Hdo. inversion Hdo; subst. split; [exact G|reflexivity].
+Qed.
+
+(* ------------------------------------------------------------------ all reachable states *)
+
+Lemma init_plink : forall max stksize progs, plink (init_state max stksize progs).
+Proof.
+  intros max stksize progs. unfold init_state.
+  assert (Hpend : pend (mkSt [] (map (fun pr => mkThr (repeat None stksize) [] pr) progs) (empty_pool max)) = []).
+  { unfold pend; cbn [s_thr]. induction progs as [|p ps IH]; cbn; auto. }
+  constructor; cbn [s_heap s_pool]; rewrite ?Hpend.
+  - apply empty_pool_wf.
+  - split; [constructor|]. split; [constructor|]. intros sd sd' x [].
+  - intros x (sd & [] & _).
+  - intros x (sd & [] & _).
+  - intros x (sd & [] & _).
+  - intros x (sd & [] & _).
+  - intros x Hx. cbn in Hx. lia.
+  - intros x (sd & [] & _).
+Qed.
+
+Theorem reachable_plink : forall s0 s, 1 <= N -> inv1 K s0 -> plink s0 -> progs_ok s0 -> reachable N K s0 s -> plink s.
+Proof.
+  intros s0 s HN I0 P0 G0 H. induction H as [|s t H IH Ht]; auto.
+  destruct (reachable_inv1 N K s0 s I0 G0 H) as (I & G). destruct (step_plink s t HN I IH G Ht); auto.
+Qed.
+
+(* C10, pooled objects: in every reachable state the pool's own bookkeeping is consistent (pool_wf: the
+   conditions of PerformSanityCheck, _curPoolSize = free nodes, disjoint slabs), a node is in a free
+   list exactly when its object is in the pooled state with default payload (and, by the counting
+   invariant, count zero and null members), every object in use belongs to a listed slab, the objects
+   of a slab waiting for deletion are all pooled and belong to no listed slab; and no step obtains an
+   object that is not free and default, or deletes a slab holding an object in use. *)
+Theorem pool_inv : forall s0 s, 1 <= N -> inv1 K s0 -> plink s0 -> progs_ok s0 -> reachable N K s0 s ->
+  plink s /\ (forall t, t < length (s_thr s) -> bad56 (snd (step N K s t)) = false).
+Proof.
+  intros s0 s HN I0 P0 G0 H. pose proof (reachable_plink s0 s HN I0 P0 G0 H) as P.
+  destruct (reachable_inv1 N K s0 s I0 G0 H) as (I & G). split; auto.
+  intros t Ht. destruct (step_plink s t HN I P G Ht); auto.
+Qed.
+
+(* an object handed out by ObtainObject is in the freshly-constructed state and was in nobody's hands:
+   every free node's object is pooled, count 0, all member references null, payload 0, and no counting
+   reference anywhere points to it *)
+Theorem obtain_fresh : forall s0 s x, 1 <= N -> inv1 K s0 -> plink s0 -> progs_ok s0 -> reachable N K s0 s ->
+  pfree N (p_slabs (s_pool s)) x ->
+  o_st (hobj s x) = Pooled /\ is_default (hobj s x) = true /\ units x s = 0.
+Proof.
+  intros s0 s x HN I0 P0 G0 H Hx. pose proof (reachable_plink s0 s HN I0 P0 G0 H) as P.
+  destruct (reachable_inv1 N K s0 s I0 G0 H) as (I & G).
+  destruct (pl_free s P x Hx) as (Est & Eval).
+  assert (Hnl : is_live (hobj s x) = false) by (unfold is_live; rewrite Est; auto).
+  assert (Hlt : x < length (s_heap s)) by (eapply all_owned_lt; eauto; apply owned_app; right; apply pfree_owned; auto).
+  destruct (dead_cnt0 K s x I Hnl) as (Ec & _). destruct (i_mem K s I x Hlt) as (_ & Hq). unfold quiet in Hq. rewrite Est in Hq.
+  split; auto. split; [unfold is_default; rewrite Ec, Eval, Hq; reflexivity|]. apply (i_nolive K s I x Hnl).
+Qed.
+
+(* a slab is deleted only when all its objects are pooled (unreferenced, default) and no thread can obtain from it *)
+Theorem slab_delete_safe : forall s0 s t sd x, 1 <= N -> inv1 K s0 -> plink s0 -> progs_ok s0 -> reachable N K s0 s ->
+  t < length (s_thr s) -> In (ASlabDel sd) (t_todo (thr s t)) -> owns N sd x = true ->
+  o_st (hobj s x) = Pooled /\ units x s = 0 /\ ~ owned_by (p_slabs (s_pool s)) x.
+Proof.
+  intros s0 s t sd x HN I0 P0 G0 H Ht Hin Ho. pose proof (reachable_plink s0 s HN I0 P0 G0 H) as P.
+  destruct (reachable_inv1 N K s0 s I0 G0 H) as (I & G).
+  assert (Hp : owned_by (pend s) x).
+  { exists sd. split; auto. unfold pend. apply in_concat. exists (slabs_of (t_todo (thr s t))). split.
+    - apply in_map_iff. exists (thr s t). split; auto. apply thr_in; auto.
+    - clear - Hin. induction (t_todo (thr s t)) as [|a r IH]; [destruct Hin|].
+      destruct Hin as [->|Hin]; [left; auto|]. destruct a; cbn; auto. }
+  pose proof (pl_pend s P x Hp) as Est. split; auto. split; [|apply (pl_cross s P x Hp)].
+  apply (i_nolive K s I x). unfold is_live. rewrite Est. reflexivity.
+Qed.
+
+
+(* thread creation does not disturb the link *)
+Theorem fork_plink : forall s progs, plink s -> plink (fork_state s progs).
+Proof.
+  intros s progs P. apply (plink_frame s); auto.
+  - unfold pend, fork_state; cbn [s_thr]. rewrite map_app, concat_app.
+    assert (E : concat (map (fun t => slabs_of (t_todo t)) (map (fun pr => mkThr (t_stk (nth 0 (s_thr s) dthr)) [] pr) progs)) = []).
+    { induction progs as [|p ps IH]; cbn; auto. }
+    rewrite E, app_nil_r. apply Permutation_refl.
+  - unfold fork_state; cbn [s_heap]. rewrite bump_length. auto.
+  - intros x Hx. unfold hobj, fork_state, get_obj; cbn [s_heap]. rewrite nth_overflow by (rewrite bump_length; lia). reflexivity.
+  - intros x Hx. unfold hobj, fork_state, get_obj; cbn [s_heap]. rewrite bump_nth by auto. split; auto.
 Qed.
 
 End PoolLink.
